@@ -58,3 +58,6 @@ Definition curdelete_tree (c : curdelete) : tree :=
 Definition curdelete_of_tree (t : tree) : curdelete :=
   {| cx_id := t_int (t_nth 0 t); cx_name := t_bytes (t_nth 1 t); cx_status := t_int (t_nth 2 t);
      cx_table := t_bytes (t_nth 3 t) |}.
+
+Lemma curdelete_of_tree_tree c : curdelete_of_tree (curdelete_tree c) = c.
+Proof. destruct c; reflexivity. Qed.
